@@ -77,6 +77,32 @@ func VerifArm(k, torn int64) {
 	atomic.StoreInt64(&verifArmAt, atomic.LoadInt64(&verifCount)+k)
 }
 
+// pattern arm: die before the n-th mutation of one kind whose path contains a substring
+var (
+	verifPatMu   sync.Mutex
+	verifPatKind string
+	verifPatPath string
+	verifPatLeft int64
+)
+
+// VerifArmPattern makes the process die before the n-th mutation (counted from now) whose
+// kind equals kind and whose path contains substr. n <= 0 disarms.
+func VerifArmPattern(kind, substr string, n int64) {
+	verifPatMu.Lock()
+	verifPatKind, verifPatPath, verifPatLeft = kind, substr, n
+	verifPatMu.Unlock()
+}
+
+func verifPatternHit(kind, path string) bool {
+	verifPatMu.Lock()
+	defer verifPatMu.Unlock()
+	if verifPatLeft <= 0 || kind != verifPatKind || !strings.Contains(path, verifPatPath) {
+		return false
+	}
+	verifPatLeft--
+	return verifPatLeft == 0
+}
+
 func verifMatches(path string) bool {
 	if len(verifMatch) == 0 {
 		return true
@@ -100,6 +126,13 @@ func verifMutation(kind, path string, size int) (die bool, torn int64) {
 		verifTraceMu.Lock()
 		fmt.Fprintf(verifTraceF, "%d %s %s %d\n", n, kind, path, size)
 		verifTraceMu.Unlock()
+	}
+	if verifPatternHit(kind, path) {
+		verifDieMu.Lock()
+		if verifDieLog != "" {
+			_ = os.WriteFile(verifDieLog, []byte(fmt.Sprintf("%d %s %s %d torn=0\n", n, kind, path, size)), 0o644)
+		}
+		verifDie()
 	}
 	at := atomic.LoadInt64(&verifArmAt)
 	if at != 0 && n >= at {
